@@ -44,6 +44,16 @@ def harness_for(pr, combo, ctx):
             if not placeholder and cand:
                 E.check(z3.Or([z3.And(lp == sx.zint(a), ln == sx.zint(b)) for a, b in cand]),
                         '%s built by `%s`: position is not the start of one of its own tokens' % (name, pr))
+            if not placeholder and n is B.result and nonempty_slots:
+                # the node the production stands for: its first token, or one of the production's own terminals (the operator
+                # of a binary / assignment / conditional / accessor form) - not the start of a later operand
+                top = nonempty_slots[:1] + [s for s in nonempty_slots[1:] if s['terminal'] or isinstance(s['child'], str)]
+                k1 = nonempty_slots[0]['k']
+                alts = [z3.And(lp == sx.zint(s['pos']), ln == sx.zint(s['line'])) for s in top]
+                # ... or the position of a node of the first slot (a node cloned from / anchored on its leading child)
+                alts += [z3.And(lp == sx.zint(c.lexpos), ln == sx.zint(c.lineno)) for k, c in B.child_nodes if k == k1]
+                E.check(z3.Or(alts),
+                        '%s built by `%s`: position is neither the first token of the production nor one of its own terminals' % (name, pr))
             tm = getattr(n, '_token_map', None) or {}
             if any(getattr(c, '_token_map', None) is tm for _, c in B.child_nodes):
                 continue        # table cloned from a child node (identifier_name_string): covered by the child's hypothesis
@@ -105,10 +115,25 @@ def check_program(text):
     from calmjs.parse.walkers import Walker
     from calmjs.parse import asttypes
     tree = parse(text)
+
+    def leaves(n, out):
+        ch = [c for c in n if isinstance(c, asttypes.Node)]
+        if not ch:
+            if n.lexpos is not None:
+                out.append(n.lexpos)
+        for c in ch:
+            leaves(c, out)
+        return out
     for n in [tree] + list(Walker().walk(tree)):
         if n.lexpos is None:
             continue
         placeholder = False
+        # own token: a node stands on its first token or on a token of its own (keyword, operator, bracket) - never on the
+        # first token of a later operand, i.e. on a descendant leaf other than the leftmost one
+        ls = leaves(n, [])
+        if len(ls) > 1 and any(c is not n for c in n) and n.lexpos in ls and n.lexpos != min(ls):
+            return '%s: its position (offset %d, %r) is the start of a later operand, neither its first token nor a token of its own' % (
+                type(n).__name__, n.lexpos, text[n.lexpos:n.lexpos + 8])
         if (n.lineno, n.colno) != linecol(text, n.lexpos):
             return '%s: offset %d is %r but node says %d:%d' % (type(n).__name__, n.lexpos, linecol(text, n.lexpos), n.lineno, n.colno)
         for tok, lst in (getattr(n, '_token_map', None) or {}).items():
